@@ -15,6 +15,7 @@ import (
 	"net/http/httptest"
 	"os"
 	"regexp"
+	"runtime"
 	"runtime/pprof"
 	"sort"
 	"strings"
@@ -222,6 +223,10 @@ func runJob(A []atom, j job, tail *errTail) jobResult {
 	ferr := s.buf.FlushAll(context.Background())
 	s.buf.Close()
 	_ = ferr
+	// Barrier: a flush goroutine that panicked has already run its deferred wg.Done(), so Close() can
+	// return while the runtime is still busy killing the process. A stop-the-world request cannot
+	// complete once the dying goroutine froze the world, so this goroutine parks here until exit(2).
+	runtime.GC()
 
 	// ---- oracle over the store ----
 	byPos := make([][]hx.Row, n)
